@@ -20,9 +20,9 @@ theorem DWake.client_start (s0 : Nat) : ∀ a ∈ clStart s0, DWake.Kept a := by
   all_goals (try (simp only [isOp, atPc, notifySink, setReaderChan, readerChan, readerIdx, flushRead, mapRead, mapMoved, chanOp, lockOk, sinkLockFree, monMapped, outLen_eq, getS, getD0_eq, getD_idx0, getD1_eq, getD_idx1, getD_stopAllFilters, markFlt, Bool.and_eq_true, Bool.or_eq_true, decide_eq_true_eq, Bool.not_eq_true', ne_eq] at hg ⊢))
   all_goals (try (simp at hg; done))
   all_goals (repeat' split)
-  all_goals (intro hf he hm)
-  all_goals (first | (cases hm; done) | (obtain ⟨k1, k2, k3, k4, k5, k6, k7, k8, k9, k10, k11, k12, k13⟩ := hU _ hf he hm))
-  all_goals (first | (obtain ⟨w1, w2⟩ := h _ hf he hm))
+  all_goals (intro he hm)
+  all_goals (first | (cases hm; done) | (obtain ⟨k1, k2, k3, k4, k5, k6, k7, k8, k9, k10, k11, k12, k13⟩ := hU _ he hm))
+  all_goals (first | (obtain ⟨w1, w2⟩ := h _ he hm))
   all_goals (
     have hn1 := nrd_pos k3
     have hrm0 := cv_rmap0 k1 hn1
